@@ -212,6 +212,15 @@ func (cc *checkCtx) run() int {
 		timeout = 30
 	}
 	// verify functions in parallel
+	findings := loadFindings()
+	noRetry := func(name string) bool {
+		for i := range findings {
+			if findings[i].matches(cc.id, name) {
+				return true
+			}
+		}
+		return false
+	}
 	results := make([]*FnResult, len(fns))
 	var wg sync.WaitGroup
 	sem := make(chan struct{}, 8)
@@ -221,7 +230,7 @@ func (cc *checkCtx) run() int {
 		go func(i int, f *ssa.Function) {
 			defer wg.Done()
 			defer func() { <-sem }()
-			results[i] = p.VerifyFunction(f, &VerifyOpts{TimeoutS: timeout, Workers: 4, Keep: false, Hooks: prop.Hooks, Alloc: prop.AllocBound})
+			results[i] = p.VerifyFunction(f, &VerifyOpts{TimeoutS: timeout, Workers: 4, Keep: false, Hooks: prop.Hooks, Alloc: prop.AllocBound, NoRetry: noRetry})
 		}(i, f)
 	}
 	wg.Wait()
@@ -337,6 +346,10 @@ func (cc *checkCtx) report() int {
 			continue
 		}
 		violations++
+		if lf, err := os.OpenFile(filepath.Join(verifDir, "work", "violations.log"), os.O_APPEND|os.O_CREATE|os.O_WRONLY, 0644); err == nil {
+			fmt.Fprintf(lf, "%s %s %s [%s/%s] %.1fs\n", time.Now().Format(time.RFC3339), cc.id, o.Name, o.Status, o.Solver, o.Secs)
+			lf.Close()
+		}
 		os.MkdirAll(replayDir, 0755)
 		hsum := sha1.Sum([]byte(o.Name))
 		path := filepath.Join(replayDir, fmt.Sprintf("%s.%x.json", fileSafe.ReplaceAllString(trunc(o.Name, 120), "_"), hsum[:3]))
